@@ -259,6 +259,10 @@ func main() {
 
 	cCfg := nsq.NewConfig()
 	pCfg := nsq.NewConfig()
+	// go-nsq finishes a message without handling it once it has been attempted more
+	// than MaxAttempts (default 5) times; a relay must not acknowledge what no
+	// destination accepted, so the limit is off unless a consumer-opt sets it
+	cCfg.MaxAttempts = 0
 
 	flag.Var(&nsq.ConfigFlag{cCfg}, "consumer-opt", "option to passthrough to nsq.Consumer (may be given multiple times, see http://godoc.org/github.com/nsqio/go-nsq#Config)")
 	flag.Var(&nsq.ConfigFlag{pCfg}, "producer-opt", "option to passthrough to nsq.Producer (may be given multiple times, see http://godoc.org/github.com/nsqio/go-nsq#Config)")
